@@ -1274,7 +1274,7 @@ func (e *env) step(i int, p *plan) bool {
 		if d == nil {
 			d = new(big.Int)
 		}
-		if p.kind == "create-garbage" && a != sender {
+		if strings.HasPrefix(p.kind, "create-garbage") && a != sender {
 			// arbitrary init code: it may legitimately move its endowment anywhere (a random byte
 			// string that happens to SELFDESTRUCT or CALL towards a monitored address, e.g. 0x0);
 			// what other accounts receive from arbitrary code is C16's subject, not this property's
